@@ -17,6 +17,8 @@ Inductive fmt :=
 | FSeq (a b : fmt)
 | FLen (n : nat) (a : fmt)      (* n-octet length prefix, then exactly that many octets parsed by a *)
 | FNewLen (a : fmt)             (* new-format (1/2/5-octet) length prefix, then exactly that many octets parsed by a *)
+| FSubLen (a : fmt)             (* subpacket length prefix (RFC 4880 5.2.3.1: one octet below 192, two octets for a first octet 192..254,
+                                  five octets for 255; no partial form; Wire.sub_len / Wire.sub_length), then exactly that many octets parsed by a *)
 | FMany (a : fmt).              (* repeat a until the region is exhausted *)
 
 Fixpoint enc (f : fmt) (v : value) {struct f} : option bytes :=
@@ -35,6 +37,10 @@ Fixpoint enc (f : fmt) (v : value) {struct f} : option bytes :=
   | FNewLen a, x =>
       match enc a x with
       | Some p => if Z.of_nat (length p) <? 4294967296 then Some (new_length (Z.of_nat (length p)) ++ p) else None
+      | None => None end
+  | FSubLen a, x =>
+      match enc a x with
+      | Some p => if Z.of_nat (length p) <? 4294967296 then Some (sub_length (Z.of_nat (length p)) ++ p) else None
       | None => None end
   | FMany a, VL l =>
       (fix go (l : list value) : option bytes :=
@@ -79,6 +85,16 @@ Fixpoint dec (fuel : nat) (f : fmt) (i : bytes) {struct fuel} : option (value * 
           | _ => None end
         else None
       | None => None end
+  | FSubLen a =>
+      match sub_len i with
+      | Some (l, rest) =>
+        let len := Z.to_nat l in
+        if Nat.leb len (length rest) then
+          match dec fuel' a (firstn len rest) with
+          | Some (x, []) => Some (x, skipn len rest)
+          | _ => None end
+        else None
+      | None => None end
   | FMany a =>
       match i with
       | [] => Some (VL [], [])
@@ -95,7 +111,7 @@ Fixpoint dec (fuel : nat) (f : fmt) (i : bytes) {struct fuel} : option (value * 
 
 Fixpoint depth (f : fmt) : nat :=
   match f with
-  | FSeq a b => S (depth a + depth b) | FLen _ a => S (depth a) | FNewLen a => S (depth a) | FMany a => S (depth a)
+  | FSeq a b => S (depth a + depth b) | FLen _ a => S (depth a) | FNewLen a => S (depth a) | FSubLen a => S (depth a) | FMany a => S (depth a)
   | _ => 1%nat end.
 
 (* mode true: self-delimiting; mode false: consumes exactly the region it is given *)
@@ -106,6 +122,7 @@ Fixpoint wf (m : bool) (f : fmt) : bool :=
   | FSeq a b, m => wf true a && wf m b
   | FLen _ a, _ => wf false a
   | FNewLen a, _ => wf false a
+  | FSubLen a, _ => wf false a
   | FMany a, false => wf true a
   | _, _ => false
   end.
